@@ -277,6 +277,8 @@ uint64_t w%(N)s_lget_at(uint8_t* pdu, uint64_t id, uint8_t* resultloc) {
     case 3: return (uint64_t)(%(M)s);
     case 4: %(P)s
     case 5: return (uint64_t)__alignof__(%(T)s);
+    case 6: return (uint64_t)(3 * %(L)s);            /* the length macro inside an expression (a body without parentheses) */
+    case 7: return (uint64_t)(1000 - %(L)s);
   }
   return ~0ull;
 }''' % {'N': N, 'T': T, 'L': lenm, 'M': maxe,
